@@ -27,6 +27,10 @@ CHECKS = {
                 text="copyable(t) is a ghost predicate defined by structural recursion with one clause per class, as the statement lists them. TypeBound.join (loop invariant, early return) and every type_bound override in the closed world of Type implementors (Sum incl. the sugar sums, Variable, RowVariable, Alias, Opaque, USize, FunctionType, PolyFuncType, _QubitDef, ExtType with explicit / from-params bounds over any index list, std Array / List / StaticArray) are verified against their clause under the interface contract for constituent types; ExtType._to_opaque writes the computed bound; the sugar constructors build the stated rows; StaticArray.__init__ raises ValueError exactly for non-copyable elements. Ground checks tie the bundled definitions' bounds to the JSON files and the class table to the contracts.",
                 note=TRUST + "; _load_extension trusted (facts ground-checked); two-level comprehension abstracted by membership; sequence membership lemma supplied per use.",
                 technique="contract-based deductive verification with modular structural induction (interface contract + per-class refinement), z3 cross-checked by z3-4.8.12/cvc5"),
+    "C06": dict(cat="other", design="5/C06",
+                text="Every signature / output-count / port-kind method of ops.py is verified against the statement's table: Input/Output, DFG (outer = body), CFG, Conditional (sum then other inputs; case i gets variant i + others), Case, TailLoop (outer and body with Sum(just-inputs, just-outputs) + rest), DataflowBlock (successor rows, control-flow ports), Tag and sugar tags, MakeTuple/UnpackTuple inverse (through ext_op -> OpDef.instantiate -> cached signature), CallIndirect, Call and LoadFunc over the instantiated signature with the function port after the value inputs, Const/LoadConst agreement, FuncDefn/FuncDecl function ports, the order port in both directions for every dataflow op, _sig_port_type / port_type = payload of the kind. Three genuine defects were found by failing obligations + replays and repaired (Call arity from the polymorphic body, order-port kinds of Call/LoadConst/LoadFunc, LoadFunc.num_out being a Field). Hugr.port_kind/port_type in base.py and std registered ops are covered by the bounded table only -> category other.",
+                note=TRUST + "; interface contracts for DataflowOp.outer_signature and Value.type_; _load_extension trusted with ground-checked prelude facts.",
+                technique="contract-based deductive verification (per-class postconditions from the typing table), z3 cross-checked; bounded table check for base.py wrappers"),
 }
 
 NOT_APPLICABLE = {
